@@ -182,7 +182,7 @@ OnTx(rs, e) ==
         \* "repeats the pass at most twice if nothing is heard, THEN removes the silent successor": the successor is
         \* given up only after the pass and both repetitions stayed unanswered (three offers)
         <<"C11.patience", (moveOn /\ rs.pas.by = s) => rs.pas.n >= 3>>,
-        <<"C11.none", TRUE>> >>
+        <<"C11.heard", TRUE>> >>
       c11o == <<
         <<"C12.successor", (passOn /\ ~single /\ rs.expectSucc[s] # -1) => rs.expectSucc[s] = d>>,
         <<"C02.order", (passOn /\ rs.reached /\ ~FaultMode(cfg) /\ s \in rs.online) => d = Succ(rs.online, s)>>,
@@ -371,7 +371,7 @@ RuleStep(rs, e) ==
     [] OTHER              -> R("ok", NoSig, rs, <<>>)
 
 AllClauses == {"C01.overlap", "C01.permission", "C01.tsdr", "C01.tid", "C01.Reply", "C01.Holder", "C01.PassSupervision", "C01.Claim", "C01.None",
-               "C11.accept", "C11.max3", "C11.immediate", "C11.drop", "C11.patience", "C11.heard", "C11.none",
+               "C11.accept", "C11.max3", "C11.immediate", "C11.drop", "C11.patience", "C11.heard",
                "C12.range", "C12.one", "C12.cadence", "C12.successor", "C12.reply.state", "C12.reply.when", "C12.ready",
                "C13.hold",
                "C15.holder", "C15.rr", "C15.done", "C15.match", "C15.form", "C15.reply", "C15.timeout",
